@@ -39,13 +39,13 @@ M == [
                "SetOffsetAt", "ReadLag", "Config">>,
   greader |-> <<"Close", "Stats", "CommitMessages", "Offset", "Lag", "FetchMessage", "ReadMessage", "SetOffset", "SetOffsetFirst",
                 "SetOffsetAt", "ReadLag", "Config">>,
-  client |-> <<"CloseIdleConnections", "Metadata", "Produce", "ProduceCompressed", "Fetch", "ListOffsets", "CreateTopics",
+  client |-> <<"CloseIdleConnections", "ClusterChange", "Metadata", "Produce", "ProduceCompressed", "Fetch", "ListOffsets", "CreateTopics",
                "DeleteTopics", "ApiVersions", "FindCoordinator", "OffsetFetch", "OffsetCommit", "ConsumerOffsets", "RoundTrip">>,
   balancer |-> <<"BalanceKey", "BalanceNil", "BalanceEmpty", "BalanceMore", "BalanceOne">>,
   codec |-> <<"Encode", "Decode", "RoundTrip", "EncodeLarge", "OpenClose">> ]
 
 \* the calls that C10 singles out: state changes racing with I/O. NSpecial[t] = n: the first n methods of M[t].
-NSpecial == [conn |-> 8, batch |-> 8, writer |-> 2, reader |-> 6, greader |-> 5, client |-> 2, balancer |-> 2, codec |-> 2]
+NSpecial == [conn |-> 8, batch |-> 8, writer |-> 2, reader |-> 6, greader |-> 5, client |-> 3, balancer |-> 2, codec |-> 2]
 
 Types == DOMAIN M
 Special(t, i) == i <= NSpecial[t]
